@@ -1566,9 +1566,9 @@ theorem pres_process (c : Conn) (f : Frame) (dc df : Bytes) : Pres c (process c 
 
 /-! ## 6. Preservation by the event handlers -/
 
-theorem pres_processChannelMessage (c : Conn) (n : Nat) (m : Msg) :
-    Pres c (processChannelMessage c n m).1 := by
-  unfold processChannelMessage
+theorem pres_processPlainMessage (c : Conn) (n : Nat) (m : Msg) :
+    Pres c (processPlainMessage c n m).1 := by
+  unfold processPlainMessage
   split
   · exact Pres.of_core ((core_pushOut c _).trans (core_sealOut _))
   · exact Pres.of_core (core_pushOut c _)
@@ -1590,6 +1590,13 @@ theorem core_popFifo {c c1 : Conn} {m : Msg} {lid : Nat} (hp : popFifo c lid = s
   split at hp
   · cases hp
   · cases hp; exact core_setLink c _ _
+
+theorem pres_processChannelMessage (c : Conn) (n : Nat) (m : Msg) :
+    Pres c (processChannelMessage c n m).1 :=
+  processChannelMessage_ind (P := Pres c)
+    (fun _ n _ m _ h _ hp =>
+      (h.trans (Pres.of_core (core_popFifo hp))).trans (pres_processPlainMessage _ n m))
+    (fun _ h => h.trans (pres_processPlainMessage _ n m)) (Pres.refl c)
 
 theorem pres_drainFifo (fuel : Nat) (c : Conn) (n : Nat) : Pres c (drainFifo fuel c n).1 := by
   induction fuel generalizing c with
